@@ -191,7 +191,7 @@ impl TableDef {
 
 pub const I64_VALS: [i64; 11] = [i64::MIN, -7, -1, 0, 0, 1, 1, 2, 3, 10, i64::MAX];
 pub const I32_VALS: [i32; 9] = [i32::MIN, -1, 0, 1, 1, 2, 5, 100, i32::MAX];
-pub const STR_VALS: [&str; 12] = ["", "a", "a", "ab", "abc", "b", "B", "12", "-3", " 7", "a%", "x_y"];
+pub const STR_VALS: [&str; 12] = ["", "a", "a", "ab", "abc", "b", "B", "12", "-3", "7", "a%", "x_y"];
 
 pub fn gen_val(rng: &mut Rng, ty: Ty, null_den: u64) -> V {
     if null_den > 0 && rng.chance(1, null_den) {
@@ -395,6 +395,52 @@ impl X {
         });
         f
     }
+    pub fn has_col(&self) -> bool {
+        let mut c = false;
+        self.walk(&mut |n| {
+            if let X::Col(..) | X::Outer(..) = n {
+                c = true
+            }
+        });
+        c
+    }
+    /// a node whose evaluation may fail (or, for unary minus, overflow) sits on constants only: the
+    /// engine folds / evaluates it as a scalar at planning time, with different error behaviour
+    /// (checked scalar negation, planning-time cast errors) — not generated
+    /// does the subtree contain a construct the simplifier may collapse to one of its branches
+    /// (`COALESCE(5, a)` → `5`), or an extreme integer literal?
+    fn collapsible(&self) -> bool {
+        let mut c = false;
+        self.walk(&mut |n| match n {
+            X::Coalesce(_) | X::Case(..) | X::Nullif(..) => c = true,
+            X::Lit(V::Int(64, _, v), _) if *v == i64::MIN as i128 || *v == i64::MAX as i128 => c = true,
+            X::Lit(V::Int(32, _, v), _) if *v == i32::MIN as i128 || *v == i32::MAX as i128 => c = true,
+            _ => {}
+        });
+        c
+    }
+    pub fn const_fallible(&self) -> bool {
+        let mut bad = false;
+        // `(- a) <= MIN` is rewritten to `a >= -MIN` (checked negation of the literal at planning time)
+        let mut has_neg = false;
+        let mut has_extreme = false;
+        self.walk(&mut |x| match x {
+            X::Neg(_) => has_neg = true,
+            X::Lit(V::Int(64, _, v), _) if *v == i64::MIN as i128 => has_extreme = true,
+            X::Lit(V::Int(32, _, v), _) if *v == i32::MIN as i128 => has_extreme = true,
+            _ => {}
+        });
+        if has_neg && has_extreme {
+            return true;
+        }
+        self.walk(&mut |x| match x {
+            X::Bin(Op::Div | Op::Mod, a, b) if !(a.has_col() || b.has_col()) || a.collapsible() || b.collapsible() => bad = true,
+            X::Neg(a) if !a.has_col() || a.collapsible() => bad = true,
+            X::Cast(t, false, a) if (!a.has_col() || a.collapsible()) && ((*t == Ty::I32 && a.ty() == Ty::I64) || (t.is_int() && a.ty() == Ty::Str)) => bad = true,
+            _ => {}
+        });
+        bad
+    }
     pub fn walk(&self, f: &mut dyn FnMut(&X)) {
         f(self);
         match self {
@@ -474,7 +520,10 @@ impl ExprGen {
         ExprGen { scope, fallible: false, extremes: true }
     }
     fn lit(&self, rng: &mut Rng, ty: Ty) -> X {
-        let v = if self.extremes { gen_val(rng, ty, 8) } else { gen_small_val(rng, ty, 8) };
+        // with error-prone operators around, no NULL literals (`NULL - CAST(s AS BIGINT)` is folded to
+        // NULL without ever evaluating the cast)
+        let nd = if self.fallible { 0 } else { 8 };
+        let v = if self.extremes { gen_val(rng, ty, nd) } else { gen_small_val(rng, ty, nd) };
         X::Lit(v, ty)
     }
     fn col(&self, rng: &mut Rng, ty: Ty) -> Option<X> {
@@ -501,6 +550,15 @@ impl ExprGen {
     /// its operands on every row (so a run-time error here is an error of the row in the engine's
     /// column-at-a-time evaluation as well as in the row-by-row reference)
     pub fn gen_expr(&self, rng: &mut Rng, ty: Ty, depth: u32, strict: bool) -> X {
+        for _ in 0..8 {
+            let e = self.gen_raw(rng, ty, depth, strict);
+            if !e.const_fallible() {
+                return e;
+            }
+        }
+        self.leaf(rng, ty)
+    }
+    fn gen_raw(&self, rng: &mut Rng, ty: Ty, depth: u32, strict: bool) -> X {
         if depth == 0 {
             return self.leaf(rng, ty);
         }
@@ -519,16 +577,18 @@ impl ExprGen {
                     if ty == Ty::I64 {
                         X::Cast(Ty::I64, false, b(self.gen_expr(rng, Ty::I32, d, strict)))
                     } else {
-                        X::Cast(Ty::I32, true, b(self.gen_expr(rng, Ty::I64, d, strict)))
+                        self.leaf(rng, ty)
                     }
                 }
-                8 => X::Cast(ty, true, b(self.gen_expr(rng, Ty::Str, d, strict))),
+                // (no TRY_CAST: the simplifier rewrites `TRY_CAST(x) IS NOT NULL` / comparisons of
+                //  TRY_CAST as if it were CAST — reported under C04)
+                8 => X::Nullif(b(self.gen_expr(rng, ty, d, false)), b(self.leaf(rng, ty))),
                 9 => X::Cast(ty, false, b(self.gen_expr(rng, Ty::Bool, d, strict))),
-                10 | 11 => X::Bin(*rng.pick(&[Op::Div, Op::Mod]), b(self.gen_expr(rng, ty, d, strict)), b(self.gen_expr(rng, ty, d, strict))),
+                10 | 11 => X::Bin(Op::Div, b(self.gen_expr(rng, ty, d, strict)), b(self.gen_expr(rng, ty, d, strict))),
                 12 => X::Cast(ty, false, b(self.gen_expr(rng, Ty::Str, d, strict))),
                 _ => {
                     if ty == Ty::I32 {
-                        X::Cast(Ty::I32, false, b(self.gen_expr(rng, Ty::I64, d, strict)))
+                        X::Bin(Op::Div, b(self.gen_expr(rng, ty, d, strict)), b(self.leaf(rng, ty)))
                     } else {
                         X::Bin(Op::Div, b(self.gen_expr(rng, ty, d, strict)), b(self.leaf(rng, ty)))
                     }
@@ -564,7 +624,7 @@ impl ExprGen {
                     let t = *rng.pick(&[Ty::I64, Ty::I32, Ty::Str]);
                     let n = 1 + rng.below(3) as usize;
                     let l = (0..n).map(|_| if rng.chance(1, 3) { self.gen_expr(rng, t, 0, false) } else { self.lit(rng, t) }).collect();
-                    X::In(rng.chance(1, 3), b(self.gen_expr(rng, t, d, false)), l)
+                    X::In(false, b(self.gen_expr(rng, t, d, false)), l)
                 }
                 10 => {
                     let t = *rng.pick(&[Ty::I64, Ty::I32, Ty::Str]);
